@@ -436,6 +436,9 @@ def collect():
         r['calc_key_prf'] = [prf_kind(v, sid) for v in VERSIONS[:4]]
         r['tls13'] = tls13_hash(sid) if r['cipher_settings'] is not None and r['cipher_settings'][2] != 'None' else None
         r['ffv'] = [sid in CS.filterForVersion([sid], v, v) for v in VERSIONS]
+        # CipherSuite.filter_for_prfs: which PSK hashes (sha256, sha384, and None = unspecified) keep the suite
+        r['filter_prfs'] = [(lambda x: bool(x[0] == 'ok' and sid in x[1]))(safe(CS.filter_for_prfs, [sid], [h]))
+                            for h in ('sha256', 'sha384', None)]
         r['keyupdate'] = key_update(sid) if r['tls13'] is not None else None
         # every secret-deriving use of the suite besides the record keys: calc_key per label x version
         # ((3,0) + extended master secret is not a defined combination), the exporter, the deprecated helpers
@@ -559,6 +562,84 @@ def dispatch_chains(known_lists):
     return out
 
 
+def psk_guard():
+    """_serverTLS13Handshake, the loop over the offered PSK identities: the `if <test>: continue` that decides from
+    psk_hash / prf_name (/ ticket) whether an identity is skipped.  -> Gallina for
+    psk_skipped (is_ticket : bool) (psk_hash prf_name : string) : bool"""
+    path = os.path.join(REPO, 'tlslite', 'tlsconnection.py')
+    with open(path) as f:
+        tree = ast.parse(f.read())
+    cls = [n for n in tree.body if isinstance(n, ast.ClassDef) and n.name == 'TLSConnection']
+    fd = [n for n in (cls[0].body if cls else []) if isinstance(n, ast.FunctionDef) and n.name == '_serverTLS13Handshake']
+    if len(fd) != 1:
+        raise Refuse('TLSConnection._serverTLS13Handshake not found')
+    hits = [n for n in ast.walk(fd[0]) if isinstance(n, ast.If) and len(n.body) == 1 and isinstance(n.body[0], ast.Continue)
+            and not n.orelse and any(isinstance(x, ast.Name) and x.id == 'psk_hash' for x in ast.walk(n.test))]
+    if len(hits) != 1:
+        raise Refuse('_serverTLS13Handshake: expected one `if ... psk_hash ...: continue`, found %d' % len(hits))
+
+    def tr(e):
+        if isinstance(e, ast.BoolOp):
+            return '(' + (' && ' if isinstance(e.op, ast.And) else ' || ').join(tr(v) for v in e.values) + ')'
+        if isinstance(e, ast.UnaryOp) and isinstance(e.op, ast.Not):
+            return '(negb %s)' % tr(e.operand)
+        if isinstance(e, ast.Name) and e.id == 'ticket':
+            return 'is_ticket'
+        if isinstance(e, ast.Compare) and len(e.ops) == 1 and isinstance(e.ops[0], (ast.Eq, ast.NotEq)):
+            a, b = e.left, e.comparators[0]
+            if all(isinstance(x, ast.Name) and x.id in ('psk_hash', 'prf_name') for x in (a, b)):
+                g = '(String.eqb %s %s)' % (a.id, b.id)
+                return g if isinstance(e.ops[0], ast.Eq) else '(negb %s)' % g
+        raise Refuse('PSK selection guard outside the accepted form: %s' % ast.unparse(e))
+    return ['(* tlslite/tlsconnection.py:%d _serverTLS13Handshake: `if %s: continue` -- an offered PSK identity whose'
+            % (hits[0].lineno, ast.unparse(hits[0].test)),
+            '   configured hash is psk_hash is skipped when the selected suite\'s hash is prf_name *)',
+            'Definition psk_skipped (is_ticket : bool) (psk_hash prf_name : string) : bool :=\n  %s.\n' % tr(hits[0].test)]
+
+
+def suite_sources():
+    """which expression supplies the cipher suite to every key-derivation / Finished call of TLSConnection, and how
+    _clientResume treats a ServerHello whose suite differs from the resumed session's"""
+    path = os.path.join(REPO, 'tlslite', 'tlsconnection.py')
+    with open(path) as f:
+        tree = ast.parse(f.read())
+    cls = [n for n in tree.body if isinstance(n, ast.ClassDef) and n.name == 'TLSConnection']
+    if not cls:
+        raise Refuse('class TLSConnection not found')
+    pos = {'_calcPendingStates': 0, '_sendFinished': 1, '_getFinished': 1, 'calcTLS1_3PendingState': 0}
+    rows, guards = [], []
+    for fd in cls[0].body:
+        if not isinstance(fd, ast.FunctionDef):
+            continue
+        for n in ast.walk(fd):
+            if isinstance(n, ast.Call) and isinstance(n.func, ast.Attribute) and n.func.attr in pos:
+                i = pos[n.func.attr]
+                kw = [k.value for k in n.keywords if k.arg in ('cipherSuite', 'cipher_suite')]
+                arg = n.args[i] if len(n.args) > i else (kw[0] if kw else None)
+                rows.append((fd.name, n.func.attr, ast.unparse(arg) if arg is not None else '<default>'))
+        if fd.name == '_clientResume':
+            for n in ast.walk(fd):
+                if isinstance(n, ast.If):
+                    t = ast.unparse(n.test)
+                    if 'cipher_suite' in t and 'session.cipherSuite' in t:
+                        iterated = any(isinstance(b, ast.For) and isinstance(b.iter, ast.Call)
+                                       and ast.unparse(b.iter.func) == 'self._sendError'
+                                       and any(isinstance(y, ast.Expr) and isinstance(y.value, ast.Yield) for y in b.body)
+                                       for b in n.body)
+                        guards.append((t, iterated))
+    if not rows:
+        raise Refuse('no key-derivation calls found in TLSConnection')
+    o = ['(* tlslite/tlsconnection.py: (function, callee, source text of the cipher-suite argument) of every call that derives',
+         '   record keys or Finished values *)',
+         'Definition suite_arg_sources : list (string * string * string) := [\n  %s].\n' % ';\n  '.join(
+             '(%s, %s, %s)' % (sl(a), sl(b), sl(c)) for a, b, c in rows),
+         '(* _clientResume: every `if` comparing the ServerHello suite with the session suite: (test, the body iterates',
+         '   self._sendError(...) and yields, i.e. the alert is really sent and the handshake aborted) *)',
+         'Definition resume_suite_guards : list (string * bool) := [%s].\n' % '; '.join(
+             '(%s, %s)' % (sl(t), 'true' if it else 'false') for t, it in guards)]
+    return o
+
+
 class SuitesUnit(object):
     module_name = 'Suites'
 
@@ -598,7 +679,8 @@ class SuitesUnit(object):
                                                      secret; extended master secret; client finished; server finished];
                                                      ((3,0), extended master secret) is undefined and emitted as None *)
   r_exporter : list (option string);              (* keyingMaterialExporter, versions (3,1)..(3,4) *)
-  r_deprecated : list (string * option string)    (* calcMasterSecret / calcExtendedMasterSecret / calcFinished at (3,3) *)
+  r_deprecated : list (string * option string);   (* calcMasterSecret / calcExtendedMasterSecret / calcFinished at (3,3) *)
+  r_filter_prfs : list bool                       (* s in filter_for_prfs([s], [h]) for h = "sha256", "sha384", None *)
 }.
 ''')
         rows = []
@@ -609,7 +691,8 @@ class SuitesUnit(object):
             t13 = r['tls13']
             rows.append('{| r_id := %d; r_cipher_settings := %s; r_mac_settings := %s; r_canon_cipher := %s; '
                         'r_canon_mac := %s; r_prf_params := (%s, %d); r_calc_key_prf := [%s]; r_tls13 := %s; r_ffv := [%s]; '
-                        'r_keyupdate := %s; r_ku_roles := [%s]; r_labels := [%s]; r_exporter := [%s]; r_deprecated := [%s] |}' % (
+                        'r_keyupdate := %s; r_ku_roles := [%s]; r_labels := [%s]; r_exporter := [%s]; r_deprecated := [%s]; '
+                        'r_filter_prfs := [%s] |}' % (
                             sid,
                             'None' if cs is None else '(Some (%d, %d, %s))' % (cs[0], cs[1], sl(cs[2])),
                             'None' if ms is None else '(Some (%d, %s))' % (ms[0], osl(ms[1])),
@@ -625,7 +708,8 @@ class SuitesUnit(object):
                             '' if r['keyupdate'] is None else '; '.join(osl(x) for x in r['keyupdate'][1]),
                             '; '.join('[' + '; '.join(osl(x) for x in row) + ']' for row in r['labels']),
                             '; '.join(osl(x) for x in r['exporter']),
-                            '; '.join('(%s, %s)' % (sl(n), osl(k)) for n, k in r['deprecated'])))
+                            '; '.join('(%s, %s)' % (sl(n), osl(k)) for n, k in r['deprecated']),
+                            '; '.join('true' if b else 'false' for b in r['filter_prfs'])))
         o.append('Definition rows : list suite_row := [\n  %s].\n' % ';\n  '.join(rows))
 
         def per_version(name, table, comment):
@@ -642,6 +726,8 @@ class SuitesUnit(object):
         per_version('by_mac_name', d['by_mac'], '_filterSuites(all ids) with macNames=[word], per version')
         per_version('by_kx_name', d['by_kx'], '_filterSuites(all ids) with keyExchangeNames=[word], per version')
         o += dispatch_chains(d['lists'])
+        o += psk_guard()
+        o += suite_sources()
         return '\n'.join(o)
 
 
